@@ -213,7 +213,7 @@ def plan(tier, seed):
         combos = [(hs, od) for hs, od in combos if hs == seeds[0] or od in (0, 5)]
     for hs, od in combos:
         for k in range(of):
-            cfgs.append({"env": {"PYTHONHASHSEED": hs}, "order": od, "n": N[tier], "nv": NV[tier], "ntok": T[tier], "pairs_n": 2 if tier == "quick" else 3,
+            cfgs.append({"env": {"PYTHONHASHSEED": hs}, "order": od, "n": N[tier], "nv": NV[tier], "ntok": T[tier], "pairs_n": 2,
                              "k": k, "of": of, "label": f"hashseed={hs} order={od} part={k}/{of}"})
     return cfgs
 
